@@ -8,7 +8,8 @@ from vf.normform import normal_form, flatten_groupings
 
 ID = "C14"
 BUDGET = {"quick": 2000, "thorough": 30000}
-RULE = ("Programs from G (canonical one-statement-per-line layout, optionally with comment lines) x insertion of cpp "
+RULE = ("Programs from G (free-form one-statement-per-line layout or, 30%, a wrapped fixed-form layout whose format is "
+        "auto-detected; optionally with comment lines) x insertion of cpp "
         "lines at statement boundaries at any depth, before/after units and next to comments: #if/#ifdef/#ifndef/#elif/"
         "#else/#endif, #include \"f\"/<f>, #define (object-, function-like, variadic, empty), #undef, #line, #error, "
         "#warning, the null directive, line markers, blanks around '#', backslash continuations over 2-3 lines. "
@@ -119,8 +120,16 @@ def build(rnd, tier, flags):
     meta = progs.meta_of(flat)
     std = "f2008" if (meta["f08"] or g.o.f08) else r.pick(["f2003", "f2008"])
     keep = r.chance(40)
-    lo = layout.FreeOpts(comments=20 if keep else 0, indent=r.chance(50), names=gen.ALL_NAMES, excl=set(flags))
-    lay = layout.free_layout(flat, rnd, lo)
+    fixed = r.chance(30)
+    if fixed:
+        # fixed-form programs (format auto-detected): directives start in column one there
+        fo = layout.FixedOpts(comments=20 if keep else 0, cont_comments=0, wrap=r.pick([72, 60, 40]), names=gen.ALL_NAMES,
+                              excl=set(flags) | {"no_blank_at_col72"})
+        lay = layout.fixed_layout(flat, rnd, fo)
+        meta["fixed_form"] = True
+    else:
+        lo = layout.FreeOpts(comments=20 if keep else 0, indent=r.chance(50), names=gen.ALL_NAMES, excl=set(flags))
+        lay = layout.free_layout(flat, rnd, lo)
     lines = list(lay.lines)
     n = len(flat)
     nd = r.n(1, 5)
@@ -132,6 +141,8 @@ def build(rnd, tier, flags):
     ins = []
     for s in slots:
         k, dl, expect = gen_directive(r)
+        if fixed:
+            dl = [dl[0].lstrip()] + dl[1:]
         at = (firsts[s] - 1) if s < n else len(lines)
         ins.append((at, dl))
         between = s < n and s > 0 and kinds[s - 1] in ("type_decl", "attr", "use", "implicit") and kinds[s] not in (
@@ -163,7 +174,7 @@ def _cpp_nodes(tree):
 def evaluate(case):
     D = case["directives"]
     nontrivial = len(D) >= 2 and any(d["depth"] >= 2 or d["spec_exec_boundary"] for d in D)
-    labels = ["cpp:" + d["kind"] for d in D]
+    labels = ["cpp:" + d["kind"] for d in D] + (["fixed-form"] if case.get("meta", {}).get("fixed_form") else [])
     std, keep = case["std"], case["keep_comments"]
     o0 = guarded_parse(case["base"], std=std, ignore_comments=not keep)
     if o0.kind != "tree":
